@@ -21,7 +21,7 @@ SHRINK_KEEP_FIRST = 1          # every history starts with `reset` (tells the st
 NS = 8
 RULE = ("cases = histories of 12..300 statements over 8 root Vars driven by a python shadow simulation (typed and Var-to-Var assignment "
         "incl. own elements/properties and ancestors, auto-creating paths, <<, resize, removeAt, remove, clear, extend, clone, copy, drop, "
-        "p = *q + off with q a string inside the container p holds (v = *v[0]), string keys on scalars and negative ones on arrays, "
+        "p = (name of a property of q) with q = p or inside p, p = *q + off with q a string inside the container p holds (v = *v[0]), string keys on scalars and negative ones on arrays, "
         "p = *p + off on the Var's own string, removeAt counts up to INT_MAX, string keys applied to arrays, ULong literals up to 2^64, "
         "Var(Type) for every type, every Var constructed in 0xAB-poisoned storage, "
         "constructors incl. Var(long/unsigned long), Array<T>/initializer_list<T>/Dic<T>/Var::array({..}); source reference resolved before "
@@ -561,6 +561,19 @@ class Sim:
             self.count("assignment of a piece of the Var's own string")
             self.write(loc, ("s", v[1][off:]))
             return "ok"
+        if op == "setkey":
+            p, q = parse_path(t[1]), parse_path(t[2])
+            i = int(t[3])
+            sl = self.source(q)
+            loc = self.resolve_mut(p, guard, sl)
+            src = self.through(sl)
+            if not isinstance(src, Obj) or i >= len(src.items):
+                return "badarg"
+            old = self.read(loc)
+            if old is src or (is_cont(old) and self.reaches(old, src)):
+                self.count("const String& assignment from a property name inside the target container")
+            self.write(loc, ("s", sorted(src.items)[i]))
+            return "ok"
         if op == "setcs":
             p, q = parse_path(t[1]), parse_path(t[2])
             off = int(t[3])
@@ -1057,6 +1070,23 @@ class Gen:
                 return
             self.emit(line)
             return
+        if r < 0.07 and r >= 0.06:
+            # p = (name of the i-th property of q): mostly q is p itself or inside it
+            for _ in range(8):
+                root, steps, v = self.rand_path(deep=rng.choice([0.2, 0.6, 0.9]))
+                if isinstance(v, Obj) and v.items:
+                    break
+            else:
+                return
+            if rng.random() < 0.75:
+                target = path_str(root, steps[:rng.randrange(0, len(steps) + 1)])
+            else:
+                target = self.target_path()
+            line = "setkey %s %s %d" % (target, path_str(root, steps), rng.randrange(0, len(v.items) + (1 if rng.random() < 0.05 else 0)))
+            if rng.random() < 0.8 and self.would(line) in ("skip-shared-growth", "skip-source-moved"):
+                return
+            self.emit(line)
+            return
         if r < 0.06 and r >= 0.045:
             # p = *q + off with q a string Var: mostly inside the container that p holds (v = *v[0], v = *v["k"]["j"])
             for _ in range(8):
@@ -1455,6 +1485,23 @@ def boundary_cases(rng, tier):
                 off = rng.choice([0, 0, min(1, n), n // 2, n])
                 c += ["setcs %s %s %d" % (tgt, src, off), "dump %s" % tgt, "type %s" % tgt, "len %s" % tgt, "dumpall", "rc 1", "drop 1", "dumpall"]
                 cases.append(c)
+    # p = (a property name of q) with q = p, q inside p, q elsewhere; names on both sides of the inline boundary; object shared or not
+    for names in [[b"a long property name beyond inline", b"b"], [b"k", b"zz"], [b"exactly7", b"sevench", b"eight678"], [b""], [b"x" * 40, b"y" * 23, b"a"]]:
+        for shared in (False, True):
+            for tgt, src in [("0", "0"), ("0", "0/k6f"), ("0/k6f", "0/k6f"), ("1/i2", "0"), ("0/i0", "0/i0/i1")]:
+                c = ["reset"]
+                base = src
+                for j, nm in enumerate(names):
+                    c.append("set %s/k%s i %d" % (base, hexs(nm), j))
+                if shared:
+                    c.append("copy 2 %s" % tgt.split("/")[0])
+                for i in range(len(names)):
+                    c += ["setkey %s %s %d" % (tgt, src, i), "dump %s" % tgt, "type %s" % tgt, "len %s" % tgt]
+                    if i + 1 < len(names):
+                        # rebuild for the next name
+                        c += ["set %s t NONE" % src.split("/")[0]] + ["set %s/k%s i %d" % (base, hexs(nm), j) for j, nm in enumerate(names)]
+                c += ["dumpall", "drop 2", "dumpall"]
+                cases.append(c)
     # removeAt(i, n) with counts up to INT_MAX
     for L in [1, 2, 3, 4, 7, 13]:
         c = ["reset"] + ["appl 0 i %d" % i for i in range(L)] + ["copy 1 0", "set 2/k61 t ARRAY"] + ["appl 2/k61 s %s" % hexs(b"element number %d" % i) for i in range(L)]
@@ -1512,7 +1559,7 @@ def gen(rng, tier):
 
 def nontrivial(case):
     ops = [l.split()[0].lstrip("!") for l in case]
-    return len(case) >= 5 and any(o in ("setv", "setsub", "setcs", "app", "ext", "clone", "copy", "set", "appl", "ctor") for o in ops) and \
+    return len(case) >= 5 and any(o in ("setv", "setsub", "setcs", "setkey", "app", "ext", "clone", "copy", "set", "appl", "ctor") for o in ops) and \
         any(o in ("dump", "dumpall", "eq", "tostr", "conv") for o in ops)
 
 
@@ -1555,7 +1602,7 @@ def distribution(cases):
                 r = sim.apply(l)
             except Exception:
                 r = "sim-error"
-            if op in ("set", "setv", "setsub", "setcs", "app", "appl", "resize", "remat", "rem", "clear", "ext", "clone", "copy", "drop", "ctor"):
+            if op in ("set", "setv", "setsub", "setcs", "setkey", "app", "appl", "resize", "remat", "rem", "clear", "ext", "clone", "copy", "drop", "ctor"):
                 outcomes[r] = outcomes.get(r, 0) + 1
         for k, v in sim.stats.items():
             stats[k] = stats.get(k, 0) + v
@@ -1566,7 +1613,35 @@ def distribution(cases):
 
 # ------------------------------------------------------------------ known finding
 
+def extra(ctx):
+    """deep trees (outside the line protocol: the model and the python simulation are not asked to hold 100000 levels): a Var nested
+    100000 / 1000000 arrays deep, with and without a second handle half way down, must be destroyed without a fault or a leak
+    (iterative release, commit 6b7c321)"""
+    from lib import core, engine
+    fails = []
+    for depth in (100000, 1000000):
+        half = depth // 2
+        # (no setv/app/ext with the deep Var as operand: the harness's own cycle guard walks the tree recursively)
+        case = ["reset", "appl 0 i 1", "nest 0 %d" % half, "copy 1 0", "nest 0 %d" % (depth - half), "len 0", "ctor 2 kv 6b 0", "nest 2 5",
+                "drop 0", "len 1", "rc 1", "drop 2", "rc 1", "nest 1 %d" % depth, "set 1 i 5", "set 3 t OBJ", "nest 3 %d" % depth, "drop 3", "dumpall"]
+        want = ["ok", "ok", "ok", "ok", "ok", "1", "ok", "ok", "ok", "1", "2", "ok", "1", "ok", "ok", "ok", "ok", "ok", "N I5 N N N N N N"]
+        out, crash, err = core.run_impl(ctx["exe"], ["case 0"] + case, timeout=300)
+        if crash is not None:
+            fails.append(engine.Failure("crash", case, out, [], crash=crash, stderr=err[-4000:],
+                                        clause="memory error / abnormal termination while destroying a deeply nested Var: %s" % crash,
+                                        name="deep-tree destruction (harness/c04.cpp, ops nest/drop)"))
+        elif out[1:] != want:
+            fails.append(engine.Failure("diverge", case, out, ["case"] + want, clause="deeply nested Var: outputs differ from the expected ones",
+                                        name="deep-tree destruction (harness/c04.cpp, ops nest/drop)"))
+    ctx["stats"]["deep_tree_destruction_depths"] = [100000, 1000000]
+    return fails
+
+
 KNOWN = [{
+    "key": "deep-recursion",
+    "desc": "a Var nested 100000 arrays deep: clone() (also ==, toString()) recurses once per level and overflows the call stack",
+    "case": ["reset", "appl 0 i 1", "!nest 0 100000", "!deep clone 0"],
+}, {
     "key": "autocreate-invalidates-source",
     "desc": "v << \"long string\" << 2; v[5] = v[0]: the auto-creating target path reallocates the block the source reference points into",
     "case": ["reset", "appl 0 s 61206c6f6e6720737472696e672076616c75652068657265", "appl 0 i 2", "!setv 0/i5 0/i0", "dump 0", "drop 0"],
@@ -1619,6 +1694,7 @@ LEVEL_TEXT = (
     "string_key_negative_on_array_is_self (a[\"-1\"] takes no step: an error that returns the Var itself), "
     "assign_suffix_spec (p = *p + off, a const char* into the Var's own string, leaves exactly the suffix), assign_cstr_spec (p = *q + off "
     "with q a string inside the array/object that p holds and releases, v = *v[0]: p denotes exactly that text), "
+    "assign_key_spec (p = k with const String& k the NAME of a property of the object p holds: p denotes exactly that name), "
     "int_vs_float_literal_exact (typed numeric comparisons are evaluated on exact values); "
     "(8) var_shared_growth_counterexample / autocreate_invalidates_source_counterexample: without the guards, Var c = a; a << ... leaves "
     "c with a released block, and v[5] = v[0] reads the source through a reference into a block the target path has moved (the two "
@@ -1659,6 +1735,14 @@ LEVEL_NOTE = (
     "before copying from it; new op setcs), 095ba92 (a[\"-1\"] on an array wrote before the block), cda9080 (Var(16777217) == 16777216.0f: "
     "here the driver and the python reference had COPIED the code's int->float rounding for the typed overload instead of the numeric "
     "specification, so K agreed with the defect; both are exact now). "
+    "A third round: 782f6e9 (operator=(const String&) with a property name of the Var's own object, left out of 7dd07aa; new op setkey) and "
+    "6b7c321 (~Var recursed once per nesting level: stack overflow at depth 100000; nested containers are now released iteratively). The "
+    "model's release was a work list already, so K could not see that difference below the generated depth (<= 64); the deep trees are "
+    "now exercised outside the line protocol by extra(): depth 100000 and 1000000, arrays and objects, with a second handle half way "
+    "down, destroyed through drop / typed assignment under ASan/LSan, outputs compared with fixed expectations (no model, no theorem). "
+    "(d) known: property=C04 key=deep-recursion — clone(), == and toString() still recurse once per nesting level; hypothesis of every "
+    "statement about them: the nesting depth fits the call stack (generated depth <= 64; probe at depth 100000 crashes with "
+    "asan:stack-overflow); the theorems say nothing about the call stack. "
     "(double)u for a ULong above 2^53 is modelled by round-to-nearest-even (Dy.ofIntD); only K validates that rounding."
 )
 TRUSTED = ["harness/c04.cpp is compiled with -fsanitize=signed-integer-overflow in addition to the framework's ASan/UBSan set (inline Var.h arithmetic)",
